@@ -11,7 +11,7 @@ BOOL_KINDS = ["bdd", "bcdd", "zbdd"]
 DRIVER_JOBS = int(os.environ.get("VERIF_DRIVER_JOBS", "6"))
 
 
-def _bool_suite(ck, acts, plan, features="idx,cache,mt", module="TraceManager"):
+def _bool_suite(ck, acts, plan, features="idx,cache,mt", module="TraceManager", tag=""):
     """run drivers of `plan` = [(driver, args)], validate every trace chunk
     with TLC under the active obligations `acts`"""
     binary = vlib.build_harness(features)
@@ -22,7 +22,7 @@ def _bool_suite(ck, acts, plan, features="idx,cache,mt", module="TraceManager"):
 
     def run(item):
         i, (drv, args) = item
-        od = os.path.join(ck.outdir, "%02d-%s-%s" % (i, drv, args.get("kind", "")))
+        od = os.path.join(ck.outdir, "%s%02d-%s-%s" % (tag, i, drv, args.get("kind", "")))
         return vlib.run_driver(binary, drv, args, od, timeout=3600)
     with cf.ThreadPoolExecutor(max_workers=DRIVER_JOBS) as ex:
         results = list(ex.map(run, enumerate(plan)))
@@ -97,6 +97,8 @@ def c02(ck, tier, seed):
                       "event by event; non-trivial = result differs from both operands and from the constants")
     vlib.ensure_tables()
     plan = _tables_plan(tier, seed, "bool") + _hist_plan(tier, seed)
+    # eval with 9..70 variables (the assignment is packed into machine words)
+    plan += [("widevars", {"kind": k, "seed": seed * 43 + i, "tier": tier}) for i, k in enumerate(BOOL_KINDS)]
     _bool_suite(ck, ["C02"], plan)
     ck.cov["exhaustive"] = True
     ck.assumptions += ["ite is replayed on a 24^3 sub-cube of the 256^3 triples, plus random triples in histories"]
@@ -244,6 +246,18 @@ def c08(ck, tier, seed):
     plan = [("reorder", {"kind": k, "seed": seed * 13 + i, "tier": tier}) for i, k in enumerate(BOOL_KINDS)]
     files = _bool_suite(ck, ["C08"], plan)
     _bubble_binding(ck, files)
+    # the pointer-based backend: the same reordering histories, and model counting with a SatCountCache shared
+    # across reorderings (an operation after reordering; obligations of the C12 driver handed over to C08)
+    pplan = [("reorder", {"kind": k, "seed": seed * 13 + 7 + i, "tier": "quick"}) for i, k in enumerate(BOOL_KINDS)]
+    _bool_suite(ck, ["C08"], pplan, features="ptr,cache,mt", tag="ptr-")
+    binary = vlib.build_harness("ptr,cache,mt")
+    pfiles, cmds = [], []
+    for i, k in enumerate(BOOL_KINDS):
+        res = vlib.run_driver(binary, "count", {"kind": k, "seed": seed * 11 + i, "tier": "quick"},
+                              os.path.join(ck.outdir, "ptr-count-" + k))
+        pfiles += ck.add_driver(res)
+        cmds.append(" ".join(map(str, res["cmd"])))
+    ck.add_validation(vlib.validate("TraceManager", pfiles, ["C08"], extra_env={"ALIAS_C12": "C08"}), driver_cmd=cmds)
     # MTBDD and TDD: reorderings with live functions inside the multi-valued histories (TraceMV, mcheck events)
     import chk_mv
     for drv in ["tdd", "mtbdd"]:
